@@ -19,7 +19,7 @@ ALL = ['C%02d' % i for i in range(1, 21) if i != 14]
 # property -> [(owner property, None = all its rules | set of rule ids)]: helper coverage by call-graph reachability
 BORROWS = {
     'C01': [('C02', None)],
-    'C02': [('C01', {'C01.TYPEMAP', 'C01.INTCONV'})],            # convert() and the type tables are shared by writer and reader                         # what was written must read back: the reader's rules
+    'C02': [('C01', {'C01.TYPEMAP', 'C01.INTCONV', 'C01.PAIRS'})],            # convert() and the type tables are shared by writer and reader                         # what was written must read back: the reader's rules
     'C03': [('C01', None), ('C02', None)],          # append/write render rows like the writer, and are re-read
     'C07': [('C02', None)],                         # the maskbits cache is filled by the yanny reader
     'C09': [('C08', None)],                         # fit -> action -> intrv / bsplvn
